@@ -98,6 +98,18 @@ func main() {
 		entries := map[string]*storage.Dataset{"outside": mk(100), "host0": mk(10), "outside-restarted": mk(100)}
 		for _, ename := range []string{"outside", "host0", "outside-restarted"} {
 			ds := entries[ename]
+			// reads through the entry node first (size, search): they must leave its routing table alone
+			func() {
+				for i := 0; i < np; i++ {
+					nodes[i].Reset("ok", false)
+					nodes[i].Sizes[pids[i]] = [2]uint64{uint64(i + 1), uint64(100 * (i + 1))}
+				}
+				ctx, cancel := context.WithTimeout(context.Background(), 2*time.Second)
+				defer cancel()
+				ds.SizeInfo(ctx)
+				ds.Search(ctx, amath.Vector{1, 2}, 3)
+				time.Sleep(30 * time.Millisecond)
+			}()
 			for k, id := range ids {
 				for _, path := range []string{"insert", "update", "remove", "binsert", "bupdate", "bremove"} {
 					for _, n := range nodes {
@@ -141,6 +153,9 @@ func main() {
 					for i := 0; i < np; i++ {
 						calls, _ := nodes[i].Snapshot()
 						for _, c := range calls {
+							if strings.HasPrefix(c, "SearchPartitions") || strings.HasPrefix(c, "PartitionInfo") || strings.HasPrefix(c, "search") {
+								continue // a straggler of the reads made before the writes
+							}
 							hits++
 							ev.Got = i
 							// batch paths carry the partition id: it must be the one this node hosts
